@@ -631,6 +631,38 @@ HPRE = ("From Coq Require Import List ZArith NArith Bool.\n"
         "Definition c_count (s : str) : option (nat * str) := let (w, r) := span_dig (skip_ws s) in match w with [] => None | _ :: _ => Some (fold_left (fun a d => 10 * a + N.to_nat (d - 48)) w 0, r) end.\n")
 
 
+def ref_nested_multi(s, o, c):
+    """the same reading for delimiters of any length: content is a maximal run of non-blank characters at none of which a
+    delimiter STARTS (a lone character of a multi-character delimiter is ordinary content)"""
+    i = 0
+    while i < len(s) and s[i] in WS:
+        i += 1
+    if not s.startswith(o, i):
+        return None
+    stack = [[]]
+    i += len(o)
+    while True:
+        while i < len(s) and s[i] in WS:
+            i += 1
+        if i >= len(s):
+            return None
+        if s.startswith(o, i):
+            stack.append([])
+            i += len(o)
+        elif s.startswith(c, i):
+            done = stack.pop()
+            i += len(c)
+            if not stack:
+                return done, i
+            stack[-1].append(done)
+        else:
+            j = i
+            while j < len(s) and s[j] not in WS and not s.startswith(o, j) and not s.startswith(c, j):
+                j += 1
+            stack[-1].append(s[i:j])
+            i = j
+
+
 def ref_nested(s, o="(", c=")"):
     """independent reading with an explicit stack: (tree, end) or None"""
     i = 0
@@ -784,6 +816,25 @@ def part_e(ctx, info):
         if got != want:
             viol(ctx, "nested:%r" % s, "nested_expr on %r gives %r, the bracket reading gives %r" % (s, got, want), {"kind": "nested", "s": s})
         impl.append(got)
+    # delimiters of mixed and equal lengths (implementation vs the reading only; the Coq model has single characters)
+    nm = 0
+    for o_, c_ in (("${", "}"), ("<", "/>"), ("{", "%}"), ("<<", ">>"), ("[", "]")):
+        nem = pp.nested_expr(o_, c_, ignore_expr=None)
+        alpha = "".join(sorted(set(o_ + c_ + "a ")))
+        fixed = [o_ + " cost$5 " + o_ + " a{b " + c_ + " " + c_, o_ + "$" + c_, o_ + "a" + o_ + "b" + c_ + c_[:1] + "x" + c_, o_ + " " + c_ + " tail", o_ + o_[:1] + c_]
+        for s_ in list(all_strings(alpha, 5 if not ctx.thorough else 6)) + fixed:
+            if o_ not in s_:
+                continue
+            got = run_at0(nem, s_)
+            if got not in (None, "rec"):
+                got = (got[0][0], got[1])
+            want = ref_nested_multi(s_, o_, c_)
+            nm += 1
+            ctx.case(("nested-multi", o_, c_, s_), nontrivial=want is not None, agreed=True)
+            if got != want and got != "rec":
+                viol(ctx, "nested-multi:%s%s:%r" % (o_, c_, s_), "nested_expr(%r, %r) on %r gives %r, the bracket reading gives %r" % (o_, c_, s_, got, want),
+                     {"kind": "nested-multi", "o": o_, "c": c_, "s": s_})
+    ctx.stat("nested_multi_cases", nm)
     exprs = ["map (fun s => match parse_nested 40 40%%N 41%%N s with Some (t, r) => Some (t, length r) | None => None end) [%s]"
              % "; ".join(vlib.coq_str(x) for x in strs)]
     # DelimitedList
@@ -948,6 +999,12 @@ def replay(ctx, obj):
     elif k == "quoted-numeric":
         got = qs_run(make_qs(('"', '"', BSL, None, False, True, True)), r["src"])
         bad = None if got == (len(r["src"]), r["want"]) else ("", "%r parses to %r, documented %r" % (r["src"], got, r["want"]))
+    elif k == "nested-multi":
+        got = run_at0(pp.nested_expr(r["o"], r["c"], ignore_expr=None), r["s"])
+        if got not in (None, "rec"):
+            got = (got[0][0], got[1])
+        want = ref_nested_multi(r["s"], r["o"], r["c"])
+        bad = None if got == want else ("", "nested_expr(%r, %r) on %r gives %r, the bracket reading gives %r" % (r["o"], r["c"], r["s"], got, want))
     elif k == "nested":
         got = run_at0(pp.nested_expr("(", ")", ignore_expr=None), r["s"])
         if got not in (None, "rec"):
